@@ -625,7 +625,7 @@ class ExprMixin:
                     return y.t == NULL
                 if isinstance(y, SFunc) and y.how == 'opaque':
                     return y.a[0] == NONE
-                if isinstance(y, (SInt, SReal, SBool, SStr, STuple, SFunc, SLit)):
+                if isinstance(y, (SInt, SReal, SBool, SStr, STuple, SFunc, SLit, SSeq)):
                     return z3.BoolVal(False)
         if isinstance(a, SVal) and isinstance(b, SVal):
             return a.t == b.t
